@@ -332,14 +332,22 @@ structure VOut where
   regs : Regs
   deriving Repr, BEq, DecidableEq
 
+def MK.isNull : MK → Bool | .null => true | _ => false
+
+def VerbK.takesText : VerbK → Bool | .delete => true | .change => true | .yank => true | _ => false
+
 def execVerbText (v : VerbK) (mk : MK) (reg : RegName) (lb : LB) (regs : Regs) : Except VErr VOut :=
+  -- a delete, change or yank whose motion failed takes nothing and leaves the register alone (fix 1ed8bc1)
   match v with
   | .delete =>
-    (getRegisterContent .delete lb mk).map (fun r => ⟨r.2.flatten, writeReg regs reg r.1⟩)
+    if mk.isNull then .ok ⟨lb.gs.flatten, regs⟩
+    else (getRegisterContent .delete lb mk).map (fun r => ⟨r.2.flatten, writeReg regs reg r.1⟩)
   | .change =>
-    (getRegisterContent .change lb mk).map (fun r => ⟨r.2.flatten, writeReg regs reg r.1⟩)
+    if mk.isNull then .ok ⟨lb.gs.flatten, regs⟩
+    else (getRegisterContent .change lb mk).map (fun r => ⟨r.2.flatten, writeReg regs reg r.1⟩)
   | .yank =>
-    (getRegisterContent .yank lb mk).map (fun r => ⟨lb.gs.flatten, writeReg regs reg r.1⟩)
+    if mk.isNull then .ok ⟨lb.gs.flatten, regs⟩
+    else (getRegisterContent .yank lb mk).map (fun r => ⟨lb.gs.flatten, writeReg regs reg r.1⟩)
   | .caseRange op =>
     match rangeFromMotion lb mk with
     | none => .ok ⟨lb.gs.flatten, regs⟩
